@@ -152,6 +152,10 @@ class IOBase(Communicator):
         """
         self._conn.disconnect()
         self._conn = None
+        if not self._last_error:
+            # remember that the connection was lost: the reconnect callbacks
+            # have to be called when it is established again
+            self._last_error = 'disconnected'
         self.is_connected = False
 
     def doPoll(self):
